@@ -345,7 +345,7 @@ def do_op(op, objs, moddir, twin=False):
     if k == "truth_table":
         return None, [[_tt_val(x) for x in row] for row in o.truth_table()]
     if k == "repr":
-        return None, repr(o)
+        return None, re.sub(r"0x[0-9a-f]+", "0x?", repr(o))
     if k == "qc_copy":
         return None, circ_j(o.circuit().copy())
     raise RuntimeError("unknown op " + k)
@@ -427,12 +427,17 @@ def ref_function(tree):
     T = importlib.import_module("qlasskit.types")
     ns = {k: v for k, v in vars(T).items() if not k.startswith("_")}
     ns["Parameter"] = importlib.import_module("qlasskit").Parameter
+    lib = vars(importlib.import_module("qlasskit.qlassfun"))  # pristine here: no history ran in this import
     for c, kid in zip(callees, tree["kids"]):
         fn, _ = ref_function(kid)
         if fn not in (None, "missing"):
             ns[c] = fn
         elif fn is None:
             ns[c] = "<not a function>"
+        elif c in lib:
+            # a free name that no user function provides falls through to whatever the module
+            # qlasskit.qlassfun itself binds under that name (only quirk-model trees have this)
+            ns[c] = lib[c]
     exec(text, ns)
     fn = ns[name]
     if tree["src"][0] == "bound":
